@@ -425,8 +425,14 @@ def run(ctx):
         cfg = write_cfg(ctx.scratch / ('c19_%s.cfg' % name), consts, invariants=INVS, properties=props)
         return job, ctx.tlc('KnotVec', cfg, workers=workers, timeout=3000)
 
-    with ThreadPoolExecutor(4) as ex:
+    with ThreadPoolExecutor(5) as ex:
+        # unbounded counterpart of the findspan family: the same loop proved for ALL knot vectors (TLAPS); the bounded
+        # PlusCal transcription of C02 (FindSpanPC.tla) is checked by TLC to refine the proved algorithm step by step
+        tl = ex.submit(common.run_tlaps, ctx, 'FindSpanProof',
+                       'pyx_findspan for ALL knot vectors: inductive loop invariant, result is the unique non-empty span '
+                       'containing u (last span at the right end), bracket shrinks in every iteration')
         results = list(ex.map(one, jobs))
+        tl.result()
 
     # negative control: with the comparison `>=` the transcribed loop no longer returns the declarative span
     neg = dict(Family='findspan', MaxP=2, MaxB=2, Ns={1}, IvSet={1}, BuggyCmp=True)
